@@ -25,7 +25,8 @@ Record Defects := mkDefects {
   d_logout_inc : bool        (* unrepaired recount rules: per event and result (freeze/activate approved, logout rejected) and the
                                 logout request tests availability AFTER the status change, so it never decrements;
                                 repaired: recount whenever the administrator's availability really changes, and a
-                                PAUSED proposal gets the new count but is not concluded by it *)
+                                PAUSED proposal gets the new count but is not concluded by it; the recount loop works on
+                                each proposal's current record instead of the snapshot read once *)
 }.
 Definition cfg_fixed : Defects := mkDefects false false false false false false.
 Definition cfg_faithful : Defects := mkDefects true true true true true true.
@@ -245,8 +246,16 @@ Section Gov.
         | Some p =>
           if existsb (fun e : N * N => fst e =? x) (h_elect (p_hdr p)) then
             if negb (d_avail_voted cfg) && existsb (fun b : N * bool => fst b =? x) (p_ballots p) then Ok s
-            else update_avail s (fst ip)
-                   (if inc then wrap64 (p_avail p + 1) else wrap64 (p_avail p + W64 - 1))
+            else
+              (* unrepaired: count from the snapshot copy; repaired: from the current record, skipping ended proposals *)
+              let cur := if d_logout_inc cfg then Some p else get_prop s (fst ip) in
+              match cur with
+              | None => Ok s
+              | Some q =>
+                if negb (d_logout_inc cfg) && (2 <=? p_status q) then Ok s
+                else update_avail s (fst ip)
+                       (if inc then wrap64 (p_avail q + 1) else wrap64 (p_avail q + W64 - 1))
+              end
           else Ok s
         end
       end.
